@@ -117,6 +117,7 @@ type chainStep struct {
 
 func checkC14(c *Ctx) {
 	r := c.R
+	r.Rule("R09.1", "(shared with C09) the caller printed is this record's: no field of the pooled encoder (cached source, prefix) is read before the current record wrote it")
 	r.Rule("R02.1", "(shared with C02) every record written carries its caller: one emission per call, on the path that runs the caller printer (no second emission from a deferred recovery that bypasses it)")
 	r.Rule("R02.3", "(shared with C02) the payload is the finished buffer of the regular path")
 	r.Rule("R10.1", "(shared with C10) a logger's skip count is written only by its own SetSkip/WithSkip: no function stores a setting of one logger into another (SetDefault included)")
@@ -147,6 +148,8 @@ func checkC14(c *Ctx) {
 		c14Flow(c, p, m)
 		c14FuncName(c, p)
 		c14NoInterfaceReentry(c, p, m)
+		callerPrinterFlagFree(c, p, "R14.5")
+		c09Pooled(c, p, m, "R09.1", feasibleModes)
 		c02Counts(c, p, m)
 		c02Newline(c, p, m)
 		var slogFns []*ssa.Function
